@@ -5,15 +5,8 @@
 //!   vcheck replay <file>                   re-run one saved case through the plain oracle (no proptest)
 //!   vcheck list                            list properties and sub-checks
 
-#[macro_use]
-mod core;
-mod alloc;
-mod conv;
-mod mk;
-mod visit;
-mod props;
-
-use crate::core::*;
+use vcheck::core::*;
+use vcheck::{alloc, props};
 use serde_json::{json, Value};
 use std::collections::BTreeSet;
 use std::path::PathBuf;
